@@ -464,7 +464,7 @@ fn find_id_lookups() {
         for k in ["A", "R", "S", "D", "K", "T", "I", "Z"] { for n in [0usize, 1, 2, 3, 4, 5, 999] { p.push(format!("!{}{}", k, n)); } }
         p
     };
-    for removal in 0..10usize {
+    for removal in 0..13usize {
         let mut store = AnnotationStore::default();
         for i in 0..3 { store = store.with_resource(TextResourceBuilder::new().with_id(format!("R{}", i)).with_text("hello world")).unwrap(); }
         for i in 0..2 { store = store.with_dataset(AnnotationDataSetBuilder::new().with_id(format!("S{}", i))).unwrap(); }
@@ -482,8 +482,12 @@ fn find_id_lookups() {
             1..=4 => { let i = removal - 1; store.remove_annotation(format!("A{}", i).as_str()).unwrap(); ann[i] = None; format!("remove_annotation(A{})", i) }
             5..=7 => { let i = removal - 5; store.remove_resource(format!("R{}", i).as_str()).unwrap(); res[i] = None;
                        for a in 0..4 { if a % 3 == i { ann[a] = None; } } format!("remove_resource(R{})", i) }
-            _ => { let i = removal - 8; store.remove_dataset(format!("S{}", i).as_str()).unwrap(); set[i] = None;
+            8..=9 => { let i = removal - 8; store.remove_dataset(format!("S{}", i).as_str()).unwrap(); set[i] = None;
                    for a in 0..4 { if a % 2 == i { ann[a] = None; } } format!("remove_dataset(S{})", i) }
+            // the same removals requested by temporary identifier: the public identifier of the removed item stops resolving all the same
+            10 => { store.remove_annotation("!A2").unwrap(); ann[2] = None; "remove_annotation(!A2)".to_string() }
+            11 => { store.remove_resource("!R1").unwrap(); res[1] = None; for a in 0..4 { if a % 3 == 1 { ann[a] = None; } } "remove_resource(!R1)".to_string() }
+            _ => { store.remove_dataset("!S0").unwrap(); set[0] = None; for a in 0..4 { if a % 2 == 0 { ann[a] = None; } } "remove_dataset(!S0)".to_string() }
         };
         let want = |slots: &Vec<Option<String>>, letter: &str, s: &str| -> Option<usize> {
             if let Some(rest) = s.strip_prefix(&format!("!{}", letter)) {
